@@ -319,8 +319,9 @@ MUTANTS = {
     'e_no_progress_returns': ('E', '_estimate_remaining_bs_poses',
                               "raise LhException('Can not link positions between all base stations')", 'break'),
     'e_cf_pose_missing': ('E', '_estimate_cf_poses', 'return cf_poses', 'return cf_poses[1:]'),
-    'e_one_sample_per_pass': ('E', '_estimate_remaining_bs_poses', 'if len(known) > 0:',
-                              'if len(known) > 0 and len(buckets) == 0:'),
+    'e_links_through_first_sample_only': ('E', '_estimate_remaining_bs_poses',
+                                          'for bs_poses_in_sample in bs_poses_ref_cfs:\n                unknown',
+                                          'for bs_poses_in_sample in bs_poses_ref_cfs[:1]:\n                unknown'),
     'e_cleaned_reversed': ('E', 'estimate', 'return LhBsCfPoses(bs_poses, cf_poses), cleaned_matched_samples',
                            'return LhBsCfPoses(bs_poses, cf_poses), cleaned_matched_samples[::-1]'),
 }
@@ -574,7 +575,7 @@ def enumerate_match(tier):
     if tier == 'quick':
         space = dict(n=4, deltas=[0, 1, 3], bs=[1, 2], ds=[1, 2], mins=[0, 2])
     else:
-        space = dict(n=6, deltas=[0, 1, 3], bs=[1, 2], ds=[1, 2, 3], mins=[0, 1, 2])
+        space = dict(n=5, deltas=[0, 1, 3], bs=[1, 2], ds=[1, 2], mins=[0, 2])
     i = 0
     for s in seqs_of_meas(space['n'], space['deltas'], space['bs']):
         for d in space['ds']:
@@ -591,22 +592,25 @@ def enumerate_unsorted(tier):
     for s in seqs_of_meas(n, [-2, -1, 0, 1, 3], [1, 2]):
         if all(a[0] <= b[0] for a, b in zip(s, s[1:])):
             continue
-        for d in (0, 1, 2):
+        for d in ((0, 1, 2) if tier == 'quick' else (1,)):
             cases.append({'kind': 'match', 'meas': s, 'd': d, 'minbs': (0, 1, 2)[i % 3], 'scale': i % 3, 'idmap': 0})
             i += 1
     return cases
 
 
 def enumerate_est(tier):
-    nb, n = (3, 3) if tier == 'quick' else (4, 4)
-    subsets = [list(c) for k in range(1, nb + 1) for c in itertools.combinations(range(1, nb + 1), k)]
+    """quick: every list of up to 3 samples over the 7 non-empty subsets of 3 base stations;
+    thorough: every list of up to 4 LINKING samples (>= 2 stations) over 4 base stations (the pure link-graph space;
+    lists with single-station samples up to length 3 come from MC_LhSkeleton_cases_est_thorough.cfg)."""
+    nb, n, lo = (3, 3, 1) if tier == 'quick' else (4, 4, 2)
+    subsets = [list(c) for k in range(lo, nb + 1) for c in itertools.combinations(range(1, nb + 1), k)]
     cases = []
     i = 0
     for ln in range(0, n + 1):
         for combo in itertools.product(subsets, repeat=ln):
             cases.append({'kind': 'est', 'samples': [list(c) for c in combo], 'idmap': i % 2, 'order': i % 3})
             i += 1
-    return cases, {'base_stations': nb, 'max_samples': n, 'sample_sets': len(subsets)}
+    return cases, {'base_stations': nb, 'max_samples': n, 'sample_sets': len(subsets), 'min_size': lo}
 
 
 def random_cases(tier, rng):
@@ -845,8 +849,8 @@ def main(tier, seed, replay=None):
                 'sets) for estimate(), or both chained.  Exhaustive: every case TLC enumerates under %s (PrintCases); ' % case_cfgs +
                 'match(): all lists up to %(n)d measurements, deltas %(deltas)s, base stations %(bs)s, d in %(ds)s, min in %(mins)s; '
                 'out-of-order lists over deltas {-2,-1,0,1,3}; ' % m_space +
-                'estimate(): all lists of up to %(max_samples)d samples over the %(sample_sets)d non-empty subsets of '
-                '%(base_stations)d base stations.  Beyond: TLC -simulate behaviours and seeded random cases (up to 40 '
+                'estimate(): all lists of up to %(max_samples)d samples over the %(sample_sets)d subsets with >= %(min_size)d '
+                'of %(base_stations)d base stations.  Beyond: TLC -simulate behaviours and seeded random cases (up to 40 '
                 'measurements / 8 samples / 6 base stations).  distinct = distinct non-empty inputs' % e_space)
     picks = [next((k for k, c in enumerate(cases) if c['kind'] == kind and len(traces[k]['ev']) > 6), 0)
              for kind in ('match', 'est', 'pipe')]
@@ -862,7 +866,7 @@ def main(tier, seed, replay=None):
     # 4. sensitivity: in-memory mutants must be rejected by the monitor (on cases the unmodified code passes)
     bad_idx = {k for (k, _c, _a) in bad}
     ok_idx = [k for k in range(len(cases)) if k not in bad_idx]
-    per_kind = 250 if tier == 'quick' else 3000
+    per_kind = 150 if tier == 'quick' else 800
     sub = {}
     for kind in ('match', 'est', 'pipe'):
         ks = [k for k in ok_idx if cases[k]['kind'] == kind]
